@@ -430,3 +430,46 @@ def normalisation(ctx, scheme, normalize, d, cplx, steps):
                 ctx.eq('%s step %d: TT.norm is applied to the un-normalised state of the step' % (scheme, k), ns.calls[k]['arg'], cur)
                 cur = D.scale(ctx, ctx.const_frac(1) / ns.calls[k]['nu'], cur)
                 ctx.eq('%s step %d: produced state == un-normalised state / its norm' % (scheme, k), D.as_matrix(sol[k + 1].full(), d), cur)
+
+
+# ------------------------------------------------------------ neighbouring sites of different size
+@scenario('C10', 'propagators_unequal', lambda tier: [{'ns': ns, 'rank': r, 'cplx': c} for ns in ([2, 3], [3, 2, 2], [2, 3, 2, 4] if tier != 'quick' else [2, 3, 2])
+                                                       for r in (1, 2) for c in (False, True) if not (c and r == 2 and len(ns) > 2)])
+def propagators_unequal(ctx, ns, rank, cplx):
+    """site-dependent components on a chain whose sites have different local dimensions: expm argument of bond i == (S_i (x) I_{i+1} + sum_k L_i^k (x) M_{i+1}^k) c h"""
+    ode = ctx.R.ode
+    prop = ode.__dict__['__splitting_propagators']
+    d = len(ns)
+
+    def comps(tag=''):
+        S = [ctx.input('S%d' % i, (ns[i], ns[i]), cplx) for i in range(d)]
+        L = [ctx.input('L%d' % i, (ns[i], ns[i], rank), cplx) for i in range(d)]
+        M = [ctx.input('M%d' % i, (rank, ns[i], ns[i]), cplx) for i in range(d)]
+        I = [ctx.lift(np.eye(ns[i])) for i in range(d)]
+        return S, L, I, M
+    S, L, I, M = comps()
+    S2, L2, I2, M2 = comps()
+    h, c0, c1 = ctx.scalar('h'), ctx.scalar('c0'), ctx.scalar('c1')
+
+    def gen(i):
+        if i == d - 1:
+            return S2[i]
+        G = D.kron(ctx, S2[i], ctx.lift(np.eye(ns[i + 1])))
+        for k in range(rank):
+            G = D.add(ctx, G, D.kron(ctx, L2[i][:, :, k], M2[i + 1][k, :, :]))
+        return G
+    if ctx.sym:
+        from symtt import state, lapack
+        state.reset()
+        lapack.set_policy(lapack.FreePolicy())
+    K = prop(S, L, I, M, d, h, [c0, c1])
+    if ctx.sym:
+        calls = [c for c in state.S.stub_log if c.kind == 'expm']
+        if not ctx.check('propagators: one expm per bond and one for the last site', len(calls) == d and len(K) == d):
+            return
+    for i in range(d):
+        c = c0 if i % 2 == 0 else c1
+        if ctx.sym:
+            ctx.eq('propagators: expm argument %d == generator * coefficient[%d] * h' % (i, i % 2), calls[i].A, D.scale(ctx, c * h, gen(i)))
+        else:
+            ctx.eq('propagators: K[%d] == expm(generator * coefficient[%d] * h)' % (i, i % 2), K[i], ctx.expm(np.asarray(gen(i)) * c * h), tol=1e-9)
